@@ -9,6 +9,11 @@ def run(ctx):
         ("scripted-3x2", ["-nodes", "3", "-numconns", "2", "-clients", "2", "-workers", "3", "-round", "120"], True),
         ("random-4x1", ["-random", "1500" if t else "300", "-nodes", "4", "-numconns", "1", "-clients", "3", "-workers", "3", "-round", "100", "-okbias", "1"], False),
         ("random-2x1", ["-random", "800" if t else "200", "-nodes", "2", "-numconns", "1", "-clients", "2", "-workers", "2", "-round", "100", "-okbias", "1"], False),
+        # clients that negotiated compression: the backend compresses its answers, errors included (the retry decision must
+        # not depend on how an error frame is dressed)
+        ("scripted-lz4-3x1", ["-nodes", "3", "-numconns", "1", "-clients", "2", "-workers", "3", "-round", "80", "-compression", "lz4"], True),
+        ("random-snappy-3x1", ["-random", "1000" if t else "200", "-nodes", "3", "-numconns", "1", "-clients", "2", "-workers", "3", "-round", "100", "-okbias", "1",
+                               "-compression", "snappy"], False),
         ("random-1x2", ["-random", "600" if t else "150", "-nodes", "1", "-numconns", "2", "-clients", "2", "-workers", "2", "-round", "75", "-okbias", "1"], False),
     ]
     rf.run_property(ctx, "C05", plans)
